@@ -34,12 +34,17 @@ def annotate(recs):
         for c in d["clauses"]:
             db += vlib.tok_clause(c)
         lines.append(f"analyses {i} " + vlib.toks(db, tok_levents(d["events"])))
+        if any(isinstance(e, dict) and "sreg" in e for e in d["events"]):
+            lines.append(f"softkeep k{i} " + vlib.toks(tok_levents(d["events"])))
         # the conflict report: the clause analyze_unsolvable started from and the clauses it collected
         conf = [e["unsolv"] for e in d["events"] if isinstance(e, dict) and "unsolv" in e]
         if conf and ss.outcome_kind(r["obs"]["outcome"]) == "unsat":
             lines.append(f"unsolv u{i} " + vlib.toks(db, tok_levents(d["events"]), [conf[-1]], [len(d["core"])] + list(d["core"])))
     out = vlib.oracle(lines)
     for i, v in out.items():
+        if i.startswith("k"):
+            recs[int(i[1:])]["softkeep"] = v
+            continue
         if i.startswith("u"):
             r = recs[int(i[1:])]
             if v.startswith("error"):
@@ -62,6 +67,11 @@ def ok(r):
     return a is None or ("error" not in a and a["ok"])
 
 
+def ok_softkeep(r):
+    """extracted soft_keep accepts the log (theorem soft_keeps_earlier_decisions applies)"""
+    return r.get("softkeep") in (None, "1")
+
+
 def ok_unsolv(r):
     """the implementation's Conflict equals the analyze_unsolvable model's and the side conditions of
     UnsolvableProofs.core_unsat hold (so the reported clauses refute 'root installed')"""
@@ -72,5 +82,6 @@ def ok_unsolv(r):
 def stats(recs):
     a = [r["an"] for r in recs if "an" in r and "n" in r["an"]]
     u = [r["unsolv"] for r in recs if "unsolv" in r and "eq" in r["unsolv"]]
-    return {"runs_replayed_through_analyze_model": len(a), "conflict_analyses_compared": sum(x["n"] for x in a),
+    sk = [r for r in recs if "softkeep" in r]
+    return {"logs_with_soft_requirements_through_soft_keep": len(sk), "runs_replayed_through_analyze_model": len(a), "conflict_analyses_compared": sum(x["n"] for x in a),
             "conflict_reports_compared_with_analyze_unsolvable_model": len(u)}
